@@ -23,7 +23,10 @@ import (
 	"sort"
 	"strings"
 
+	"github.com/zmap/zcrypto/x509"
+	"github.com/zmap/zlint/v3"
 	"github.com/zmap/zlint/v3/lint"
+	"golang.org/x/crypto/ocsp"
 )
 
 func init() {
@@ -60,6 +63,7 @@ func subRegSeq(out string, seed uint64, tier string, arg string) {
 		}
 		return strings.Join(xs, ",")
 	}
+	fixed := fixedObjects()
 	nseq := 400
 	if tier == "thorough" {
 		nseq = 12000
@@ -83,7 +87,7 @@ func subRegSeq(out string, seed uint64, tier string, arg string) {
 		for i := 0; i < n; i++ {
 			h := rng.Intn(len(handles))
 			reg := handles[h]
-			switch k := rng.Intn(20); {
+			switch k := rng.Intn(25); {
 			case k < 6: // register
 				kind, name, src := kinds[rng.Intn(len(kinds))], pool[rng.Intn(len(pool))], sources[rng.Intn(len(sources))]
 				if rng.Intn(25) == 0 {
@@ -225,6 +229,11 @@ func subRegSeq(out string, seed uint64, tier string, arg string) {
 					rows = append(rows, m.Name+"/"+m.Source)
 				}
 				emitOp(fmt.Sprintf("L|%d", h), "listing="+plain(rows))
+			case k < 22: // a lint run with this registry: exactly the lints of the kind registered so far
+				kind := []string{"cert", "cert", "crl", "ocsp"}[rng.Intn(4)]
+				emitOp(fmt.Sprintf("X|%d|%s", h, kind), "run="+plain(runNames(reg, kind, fixed)))
+			case k < 24: // the per-kind views must describe the same set
+				emitOp(fmt.Sprintf("K|%d", h), "lk="+lookupViews(reg, append(append([]string{}, pool...), "")))
 			default:
 				if len(handles) < 8 {
 					newReg()
@@ -262,4 +271,119 @@ func runFilter(reg lint.Registry, o lint.FilterOptions) (string, lint.Registry) 
 		return "ok same=1", f
 	}
 	return "ok same=0", f
+}
+
+type fixedObjs struct {
+	cert *x509.Certificate
+	crl  *x509.RevocationList
+	ocsp *ocsp.Response
+}
+
+func fixedObjects() fixedObjs {
+	var f fixedObjs
+	for _, o := range loadObjects() {
+		switch {
+		case o.Kind == "cert" && f.cert == nil:
+			f.cert = o.Cert
+		case o.Kind == "crl" && f.crl == nil:
+			f.crl = o.CRL
+		case o.Kind == "ocsp" && f.ocsp == nil:
+			f.ocsp = o.OCSP
+		}
+	}
+	return f
+}
+
+// names of the results a lint run with this registry returns for an object of the kind
+func runNames(reg lint.Registry, kind string, f fixedObjs) (names []string) {
+	defer func() {
+		if e := recover(); e != nil {
+			names = []string{"panic"}
+		}
+	}()
+	var rs *zlint.ResultSet
+	switch kind {
+	case "cert":
+		rs = zlint.LintCertificateEx(f.cert, reg)
+	case "crl":
+		rs = zlint.LintRevocationListEx(f.crl, reg)
+	default:
+		rs = zlint.LintOcspResponseEx(f.ocsp, reg)
+	}
+	if rs == nil {
+		return []string{"nilset"}
+	}
+	for n, r := range rs.Results {
+		if r == nil {
+			n += ":nil"
+		}
+		names = append(names, n)
+	}
+	sort.Strings(names)
+	return names
+}
+
+// full listing, by-name and by-source views of each kind; a view that disagrees with the listing is spelled out
+func lookupViews(reg lint.Registry, probe []string) string {
+	one := func(listing []string, byName func(string) bool, bySource func(lint.LintSource) []string, sources lint.SourceList) string {
+		sort.Strings(listing)
+		var viaName []string
+		for _, n := range probe {
+			if byName(n) {
+				viaName = append(viaName, n)
+			}
+		}
+		sort.Strings(viaName)
+		var viaSource []string
+		seen := map[lint.LintSource]bool{}
+		for _, s := range sources {
+			if seen[s] {
+				viaSource = append(viaSource, "dup-source:"+string(s))
+			}
+			seen[s] = true
+			viaSource = append(viaSource, bySource(s)...)
+		}
+		sort.Strings(viaSource)
+		a := strings.Join(listing, ",")
+		if len(listing) == 0 {
+			a = "-"
+		}
+		if b := strings.Join(viaName, ","); b != strings.Join(listing, ",") {
+			a += "!byName=" + b
+		}
+		if b := strings.Join(viaSource, ","); b != strings.Join(listing, ",") {
+			a += "!bySource=" + b
+		}
+		return a
+	}
+	cl, rl, ol := reg.CertificateLints(), reg.RevocationListLints(), reg.OcspResponseLints()
+	var cn, rn, on []string
+	for _, l := range cl.Lints() {
+		cn = append(cn, l.Name)
+	}
+	for _, l := range rl.Lints() {
+		rn = append(rn, l.Name)
+	}
+	for _, l := range ol.Lints() {
+		on = append(on, l.Name)
+	}
+	c := one(cn, func(n string) bool { return cl.ByName(n) != nil }, func(s lint.LintSource) (out []string) {
+		for _, l := range cl.BySource(s) {
+			out = append(out, l.Name)
+		}
+		return
+	}, cl.Sources())
+	r := one(rn, func(n string) bool { return rl.ByName(n) != nil }, func(s lint.LintSource) (out []string) {
+		for _, l := range rl.BySource(s) {
+			out = append(out, l.Name)
+		}
+		return
+	}, rl.Sources())
+	o := one(on, func(n string) bool { return ol.ByName(n) != nil }, func(s lint.LintSource) (out []string) {
+		for _, l := range ol.BySource(s) {
+			out = append(out, l.Name)
+		}
+		return
+	}, ol.Sources())
+	return c + "/" + r + "/" + o
 }
